@@ -53,6 +53,37 @@ def handleF64 : List String → String
       | "lit" => renderRes (folded ar op a b)
       | _ => "bad-op"
     | _, _, _, _ => "bad-op"
+  | "chain" :: v :: rest =>
+    -- `chain <v> (<op> <a> <c>)+`: `c` = the host's result of `running op a`, step by step
+    let rec parse : List String → Option (List (Arith × UInt64 × UInt64))
+      | [] => some []
+      | op :: a :: c :: more =>
+        match arith? op, bits? a, bits? c, parse more with
+        | some op, some a, some c, some l => some ((op, a, c) :: l)
+        | _, _, _, _ => none
+      | _ => none
+    match bits? v, parse rest with
+    | some v, some steps =>
+      if steps.isEmpty then "bad-op" else
+      -- IEEE arithmetic as the host performed it: a table from (op, running value, operand) to the result
+      let rec table : UInt64 → List (Arith × UInt64 × UInt64) → List (Arith × UInt64 × UInt64 × UInt64)
+        | _, [] => []
+        | x, (op, a, c) :: more => (op, x, a, c) :: table c more
+      let tb := table v steps
+      let ar : Arith → UInt64 → UInt64 → UInt64 := fun op x y =>
+        match tb.find? (fun (o, x', y', _) => o == op && x' == x && y' == y) with
+        | some (_, _, _, c) => c
+        | none => 0
+      renderRes (evalChain ar (.val v) (steps.map (fun (op, a, _) => (op, a))))
+    | _, _ => "bad-op"
+  | ["chainr", v, op1, a, op2, b, t, c] =>
+    -- `v op1 (a op2 b)`: `t` = host's `a op2 b`, `c` = host's `v op1 t`
+    match bits? v, arith? op1, bits? a, arith? op2, bits? b, bits? t, bits? c with
+    | some v, some op1, some a, some op2, some b, some t, some c =>
+      let ar : Arith → UInt64 → UInt64 → UInt64 := fun op x y =>
+        if op == op2 && x == a && y == b then t else if op == op1 && x == v && y == t then c else 0
+      renderRes (evalRight ar v op1 a op2 b)
+    | _, _, _, _, _, _, _ => "bad-op"
   | ["neg", x, c] =>
     match bits? x, bits? c with
     | some x, some c => "ok " ++ renderBits (negate (fun _ _ => c) x)
